@@ -1,7 +1,9 @@
 (* C09 — Model of ReceivePacket of the three RFC 1661 automata (pkg/pppoe/lcp.go, ipcp.go,
    ipv6cp.go), restricted to what can panic or fail: the packet / option decoding each code path
    performs, every guarded read of option data, the Echo-Reply and Code-Reject construction.
-   State transitions and the packets they send are the subject of C11, not of this Model.
+   Also modelled: the close path taken on a critical Code-Reject / a Protocol-Reject of LCP itself
+   (resulting state and the Terminate-Request sent), and "unknown code leaves the state unchanged".
+   The other state transitions and the packets they send are the subject of C11, not of this Model.
    [state] is the RFC 1661 state number (9 = Opened), [last_id] the identifier of the last
    Configure-Request sent (both read from the real object by the harness). *)
 From Coq Require Import ZArith NArith List Lia ZifyN ZifyNat ZifyBool Bool.
@@ -48,6 +50,22 @@ Definition opts_then_reads (strict : bool) (kind : N) (data : bytes) : res rows 
   | Hang => Hang
   end.
 
+(* closeInternal(reason): new state and the Terminate-Request it sends (code 5, data = reason;
+   its identifier is projected out) *)
+Definition close_internal (state : N) (reason : bytes) : N * rows :=
+  if state =? 1 then (0, [])
+  else if state =? 3 then (2, [])
+  else if state =? 5 then (4, [])
+  else if (state =? 9) || (state =? 6) || (state =? 7) || (state =? 8) then (4, [5 :: reason])
+  else (state, []).
+Definition reason_code : bytes :=   (* "Critical code rejected" *)
+  [67; 114; 105; 116; 105; 99; 97; 108; 32; 99; 111; 100; 101; 32; 114; 101; 106; 101; 99; 116; 101; 100].
+Definition reason_lcp : bytes := [76; 67; 80; 32; 114; 101; 106; 101; 99; 116; 101; 100].   (* "LCP rejected" *)
+(* packets sent, then the row (99, state after the call) *)
+Definition close_rows (critical : bool) (state : N) (reason : bytes) : rows :=
+  let r := if critical then close_internal state reason else (state, []) in
+  snd r ++ [[99; fst r]].
+
 Definition lcp_receive (state last_id : N) (d : bytes) : res rows :=
   x <- parse_lcp_packet d ;;
   let '(c, i, _, data) := x in
@@ -56,8 +74,15 @@ Definition lcp_receive (state last_id : N) (d : bytes) : res rows :=
   else if c =? 3 then (if i =? last_id then opts_then_reads true 1 data else Ok [])
   else if c =? 4 then (if i =? last_id then opts_then_reads true 9 data else Ok [])
   else if (c =? 5) || (c =? 6) then Ok []
-  else if c =? 7 then (if 0 <? lenN data then (_ <- idx data 0 ;; Ok []) else Ok [])
-  else if c =? 8 then (if lenN data <? 2 then Ok [] else (_ <- be16 data 0 ;; Ok []))
+  else if c =? 7 then
+    (* Code-Reject: a rejected code 1..4 is critical and closes the link *)
+    (if 0 <? lenN data
+     then (rc <- idx data 0 ;; Ok (close_rows ((1 <=? rc) && (rc <=? 4)) state reason_code))
+     else Ok (close_rows false state reason_code))
+  else if c =? 8 then
+    (* Protocol-Reject: rejecting LCP itself (0xC021) closes the link *)
+    (if lenN data <? 2 then Ok (close_rows false state reason_lcp)
+     else (rp <- be16 data 0 ;; Ok (close_rows (rp =? 49185) state reason_lcp)))
   else if c =? 9 then
     if negb (state =? 9) then Ok []
     else if lenN data <? 4 then Ok []
@@ -75,11 +100,13 @@ Definition ipcp_receive (state last_id : N) (d : bytes) : res rows :=
   if c =? 1 then opts_then_reads true 9 data
   else if c =? 3 then (if i =? last_id then opts_then_reads true 9 data else Ok [])
   else if c =? 4 then (if i =? last_id then opts_then_reads false 9 data else Ok [])
-  else Ok [].
+  else if (c =? 2) || (c =? 5) || (c =? 6) then Ok []
+  else Ok [[99; state]].   (* unknown code: ignored, state unchanged *)
 
 Definition ip6cp_receive (state last_id : N) (d : bytes) : res rows :=
   x <- parse_lcp_packet d ;;
   let '(c, i, _, data) := x in
   if c =? 1 then opts_then_reads true 2 data
   else if c =? 3 then (if i =? last_id then opts_then_reads false 2 data else Ok [])
-  else Ok [].
+  else if (c =? 2) || (c =? 4) || (c =? 5) || (c =? 6) then Ok []
+  else Ok [[99; state]].   (* unknown code: ignored, state unchanged *)
